@@ -265,6 +265,9 @@ class Resolver:
                     pr = self._parent_res = Resolver(self.m, p, flow=False)
                 if name in pr.defs or name in p.params:
                     return ("outer", pr.term(ast.Name(id=name, ctx=ast.Load()), at=None))
+            lit = self._module_literal(name)
+            if lit is not None:
+                return lit
             return ("name", name)
         reaching = None
         if self.flow and at is not None:
@@ -312,6 +315,32 @@ class Resolver:
         if len(alts) == 1:
             return alts[0]
         return ("phi", tuple(alts))
+
+    def _module_literal(self, name):
+        """A module-level constant bound once to a literal (number, string, tuple/list of such)."""
+        cache = getattr(self.m, "_module_literals", None)
+        if cache is None:
+            cache = self.m._module_literals = {}
+        key = (self.fn.path, name)
+        if key in cache:
+            return cache[key]
+        out = None
+        tree = self.m.trees.get(self.fn.path, (None, None))[0]
+        if tree is not None and not self.fn.path.endswith("posc.py"):
+            defs = [st for st in tree.body if isinstance(st, (ast.Assign, ast.AnnAssign)) and any(isinstance(t, ast.Name) and t.id == name for t in (st.targets if isinstance(st, ast.Assign) else [st.target]))]
+            if len(defs) == 1 and defs[0].value is not None:
+                v = defs[0].value
+
+                def lit(e):
+                    if isinstance(e, ast.Constant):
+                        return ("const", e.value)
+                    if isinstance(e, (ast.Tuple, ast.List)) and all(isinstance(x, ast.Constant) for x in e.elts):
+                        return ("tuple" if isinstance(e, ast.Tuple) else "list", tuple(("const", x.value) for x in e.elts))
+                    return None
+
+                out = lit(v)
+        cache[key] = out
+        return out
 
     # ------------------------------------------------------------------ fields
     def field_stores(self, attr, cls=None):
